@@ -305,7 +305,7 @@ func checkC04(p *Program, r *Report) {
 	r.Rule("C04.exhaust", "E3", "an exhausted iterator performs no write and reports (nil, nil)", 1)
 	var iters []*ssa.Function
 	for f := range scanReach {
-		if f.Parent() == nil {
+		if f.Synthetic != "" {
 			continue
 		}
 		sig := f.Signature
